@@ -139,6 +139,7 @@ SPECS["C12"] = dict(
     jobs=[
         rapid("TestC12Core", 800, 25000, sq=4, st=16),
         plain("TestC12FEC", sq=1, st=2),
+        rapid("TestC12SessionFECWrap", 250, 8000, sq=3, st=12),
     ],
 )
 
